@@ -624,7 +624,12 @@ func (m *Manager) readIntoTable(id uint64, reader io.Reader) error {
 			batchCmd.Table = cmd.Table
 			batchCmd.LeaderIndex = cmd.LeaderIndex
 
-			if uint64(estimatedSize) < m.cfg.Table.MaxInMemLogSize/2 {
+			// Zero MaxInMemLogSize means no limit on the in-memory log, batch by a fixed size then.
+			limit := m.cfg.Table.MaxInMemLogSize / 2
+			if limit == 0 {
+				limit = 1024 * 1024
+			}
+			if uint64(estimatedSize) < limit {
 				batchCmd.Batch = append(batchCmd.Batch, cmd.Kv)
 				continue
 			}
@@ -660,6 +665,9 @@ func (m *Manager) readIntoTable(id uint64, reader io.Reader) error {
 		if last {
 			break
 		}
+		// The record that reached the limit was not part of the proposed batch, it starts the next one.
+		batchCmd.Batch = append(batchCmd.Batch, cmd.Kv)
+		estimatedSize = n
 	}
 	return nil
 }
